@@ -165,8 +165,8 @@ class C31(Standard):
     def prepare(self, ctx, cases):
         cfgs = sorted(set(c.cfg[0] for c in cases))
         groups = []
-        # two translation units so that they compile in parallel
-        for part in (cfgs[0::2], cfgs[1::2]):
+        # four translation units so that they compile in parallel
+        for part in (cfgs[0::4], cfgs[1::4], cfgs[2::4], cfgs[3::4]):
             if not part:
                 continue
             key = "l2cap_" + hashlib.sha1(";".join(part).encode()).hexdigest()[:10]
